@@ -92,7 +92,7 @@ class El:
             return Fn(model=lambda ex, st, a, k: El(z3.ToInt(t) if t.sort() == Re else t), name="long")   # values are integral here
         if name == "float":
             return Fn(model=lambda ex, st, a, k: El(z3.ToReal(t) if t.sort() == I else t), name="float")
-        if name in ("clone", "detach", "cpu", "to"):
+        if name in ("clone", "detach", "cpu", "to", "numpy"):
             return Fn(model=lambda ex, st, a, k: El(t), name=name)
         raise Undecided(f"element-wise tensor method {name}")
 
@@ -186,6 +186,45 @@ def build(tier):
                replay={"adapter": "demos:run", "payload": {"name": "C08b_demo_2"}})
     P.trusted.append(ndt.DOC + "; torch.mean over a tensor of concrete shape")
 
+    # what learn() minimises / reports as priorities: the 1-step distributional loss of the 1-step batch with gamma, the n-step loss of the
+    # n-step batch with gamma**n_step, their sum when combined_reward is set, the n-step loss alone otherwise; priorities = that
+    # element-wise loss + prior_eps.  _dqn_loss is an uninterpreted function of (which batch it was handed, discount).
+    _rp = {"adapter": "demos:run", "payload": {"name": "C08b_demo_2"}}
+    LF = z3.Function("dqn_loss_of", z3.IntSort(), z3.RealSort(), z3.RealSort())
+    POW = z3.Function("pow_real_int", z3.RealSort(), z3.IntSort(), z3.RealSort())
+    P.specns.setdefault("pow", lambda x, y: POW(z3.ToReal(x) if x.sort() == z3.IntSort() else x, z3.ToInt(y) if y.sort() != z3.IntSort() else y))
+    gam_l, eps_l, nst = z3.Real("gamma_learn"), z3.Real("prior_eps"), z3.Int("n_step_len")
+    one_step = ["states", "actions", "rewards", "next_states", "dones"]
+    n_batch = ["n_states", "n_actions", "n_rewards", "n_next_states", "n_dones"]
+
+    def loss_fn(ex, st, a, k):
+        names = [getattr(x, "what", None) for x in a[:5]]
+        kind = 1 if names == one_step else (2 if names == n_batch else 3 + abs(hash(tuple(map(str, names)))) % 1000)   # 3..: a mixture of the two batches
+        return El(LF(kind, z3ify(a[5])))
+
+    def learn_self(ex, st, label):
+        o = Obj("model.RainbowDQN", label="self")
+        o.fields.update(dict(gamma=gam_l, n_step=nst, combined_reward=z3.Bool("combined_reward"), prior_eps=eps_l, _dqn_loss=Fn(model=loss_fn, name="_dqn_loss")))
+        return o
+    L1, LN = LF(1, gam_l), LF(2, POW(gam_l, nst))
+    P.specns["elementwise_loss_i"] = z3.Real("elementwise_loss_i")
+    P.specns.update(dict(loss_defined=lambda x, n_step, comb: (x.t if isinstance(x, El) else z3ify(x)) == z3.If(z3.Not(z3ify(n_step)), L1, z3.If(z3ify(comb), L1 + LN, LN))))
+    batch_locals = {n: (lambda ex, st, l, n=n: Opaque(n)) for n in one_step + n_batch}
+    other = {a.arg: "opaque" for a in _f.args.args + _f.args.kwonlyargs if a.arg not in ("self", "n_step", "per")}
+    for tag, last in (("per", "elementwise_loss = n_step_elementwise_loss"), ("uniform", "elementwise_loss = n_step_elementwise_loss")):
+        # the two branches of learn() hold the same statements; the region picker takes them in source order (per first)
+        first = "if self.combined_reward or not n_step" if tag == "per" else "new_priorities = None"
+        P.contract("agilerl.algorithms.dqn_rainbow.RainbowDQN.learn", variant="loss-composition-" + tag,
+                   region=region(first, "if n_step"),
+                   params={**other, **batch_locals, "self": learn_self, "n_step": "bool", "per": "bool", "idxs": "opaque", "weights": "opaque"},
+                   requires=[], frame_fields=False, ensures=["loss_defined(elementwise_loss, n_step, self.combined_reward)"],
+                   replay=_rp)
+    P.contract("agilerl.algorithms.dqn_rainbow.RainbowDQN.learn", variant="priorities",
+               region=region("if per:\n    loss_for_prior", "if per:\n    loss_for_prior"),
+               params={**other, "self": learn_self, "n_step": "bool", "per": (lambda ex, st, l: True), "idxs": "opaque", "loss": "opaque",
+                       "elementwise_loss": (lambda ex, st, l: El(z3.Real("elementwise_loss_i")))},
+               requires=[], frame_fields=False, ensures=["new_priorities.t == elementwise_loss_i + self.prior_eps"], replay=_rp)
+
     def wiring():
         from pyvc import front
         owner, m, fn = front.find_function("agilerl.algorithms.dqn_rainbow.RainbowDQN._dqn_loss")
@@ -208,5 +247,5 @@ def build(tier):
                   "generic-element execution of an element-wise region (every statement in it is element-wise)"]
     P.assumptions += ["A-REAL: float32 rounding of b is not modelled (b can round above num_atoms-1 for unlucky supports)",
                       "done flags are 0/1; gamma >= 0; source probabilities p >= 0"]
-    P.uncovered += ["float32 rounding in b", "1-step + n-step combination and `+ prior_eps` in learn() (checked natively only)"]
+    P.uncovered += ["float32 rounding in b", "that _dqn_loss is a function of its arguments only (noisy layers: reset_noise happens after the step)"]
     return P
